@@ -3,12 +3,14 @@ import DendroModel.Model.C15Ext
 open DendroModel DendroModel.C15
 
 /-- filter field: `*` no filter, `-` empty set, else comma-separated ids -/
-def parseFilt (s : String) : Option (T → Bool) :=
+def parseFiltN (s : String) : Option (Nat → Bool) :=
   if s == "*" then some (fun _ => true)
   else if s == "-" then some (fun _ => false)
   else match (s.splitOn ",").mapM String.toNat? with
-    | some ids => some (fun t => ids.contains t.id)
+    | some ids => some (fun i => ids.contains i)
     | none => none
+
+def parseFilt (s : String) : Option (T → Bool) := (parseFiltN s).map (fun k t => k t.id)
 
 def parseFlag (s : String) : Option Bool :=
   if s == "1" then some true else if s == "0" then some false else none
@@ -57,6 +59,9 @@ def handle (ws : List String) : String :=
         | "anc" => match ancIter keep inc tree start with
           | some l => ids l
           | none => "bad-start"
+        | "ancptr" => match parsePar rest, parseFiltN filt with
+          | some par, some keepN => natList (ancPtrIter keepN inc par tree.size start)
+          | _, _ => "bad-op"
         | "nodes" => ids (treeNodes keep t)
         | "leafnodes" => ids (treeLeafNodes t)
         | "internalnodes" => if hasParent then "bad-start" else ids (treeInternalNodes ex t)
@@ -64,6 +69,7 @@ def handle (ws : List String) : String :=
         | "leafedges" => eids (treeLeafEdges t)
         | "internaledges" => if hasParent then "bad-start" else eids (treeInternalEdges ex t)
         | "apply" => evs (applyTrace t)
+        | "applyzip" => evs (applyZipTrace t)
         | "len" => toString (lenTree t)
         | "ageasc" | "agedesc" | "ageascint" | "agedescint" =>
           match (ages.splitOn ",").mapM Frac.parse with
